@@ -124,10 +124,15 @@ def gevp_cases(rng, n, ctx, nmax):
             kw['method'] = method
         if sort != 'Eigenvalue':
             kw['ts'] = ts
+        G_before = pG(c)
         r = _call(lambda: c.GEVP(t0, **kw))
+        G_after = pG(c)
         cid = 'gevp-%04d-N%d-T%d-t0%d-%s-%s-%s%s%s' % (i, N, T, t0, method if not vector_obs else 'obs', sort, 'asym' if asym else 'cross' if crossing else 'sym',
                                                       '-mask' if any(mask) else '', '-vobs' if vector_obs else '')
         G = pG(c)
+        if i % 2 == 0:
+            import json as _json
+            cases.append({'id': cid + '-frame', 'ev': 'frame', 'what': 'GEVP leaves the correlator matrix as it was', 'before': _json.dumps(G_before, sort_keys=True), 'after': _json.dumps(G_after, sort_keys=True)})
         if isinstance(r, Exception):
             res = {'k': 'exc', 't': type(r).__name__}
         else:
@@ -176,12 +181,15 @@ def spectrum_cases(rng, n, ctx, nmax):
         # the vectors handed to projected() stay the caller's: projecting with normalisation first and without afterwards uses the same vectors
         vs = _call(lambda: c.GEVP(t0, sort='Eigenvalue')[0])
         if not isinstance(vs, Exception):
-            snap = [None if v is None else [rat(float(x)) for x in np.asarray(v, dtype=float)] for v in vs]
+            import copy as _copy
+            ref = _call(lambda: c.projected(_copy.deepcopy(vs)))
             _call(lambda: c.projected(vs, normalize=True))
-            after = [None if v is None else [rat(float(x)) for x in np.asarray(v, dtype=float)] for v in vs]
-            cases.append({'id': 'spec-%04d-projected-frame' % i, 'ev': 'frame', 'what': 'projected(normalize=True) leaves the vectors it was given as they were',
-                          'before': [x if x is not None else [] for x in snap], 'after': [x if x is not None else [] for x in after]})
-        ctx.nontrivial.add(('spec', N, T, t0, sort))
+            again = _call(lambda: c.projected(vs))
+
+            def vals(x):
+                return [] if isinstance(x, Exception) else [('none' if it is None else ratx(float(it[0].value))) for it in x.content]
+            cases.append({'id': 'spec-%04d-projected-frame' % i, 'ev': 'frame', 'what': 'projecting on the same vectors gives the same correlator, whether or not a normalising projection came in between',
+                          'before': vals(ref), 'after': vals(again)})
         # pruning to the lowest states preserves their energies
         if N >= 3:
             Nt = int(rng.integers(1, N))
